@@ -28,6 +28,7 @@ import (
 	"pgregory.net/rapid"
 
 	"verif/internal/ev"
+	"verif/internal/mmdbx"
 	"verif/internal/routex"
 )
 
@@ -157,6 +158,25 @@ var ruleTexts = [4][]string{
 	{"a.", "b.", "net", "xa", ".a.", "other"},
 	{`^a\.`, `\.net$`, `^b\.a\.com$`, `a.*b`, `^[ab]\.com$`},
 }
+
+// networks of the generated country databases: the prefix pool (so that the boundary addresses of
+// the address pool are boundary addresses of the database too) minus what the MMDB tree reserves
+// for IPv4 (IPv6 networks longer than /80 inside ::/80), plus the 6to4 range
+var geoPrefixPool = func() []netip.Prefix {
+	var out []netip.Prefix
+	for _, p := range append(slices.Clone(prefixPool), netip.MustParsePrefix("2002::/16"), netip.MustParsePrefix("0.0.0.0/0"), netip.MustParsePrefix("10.1.2.0/25")) {
+		if mmdbx.Check(mmdbx.Entry{Prefix: p}) == nil {
+			out = append(out, p)
+		}
+	}
+	return out
+}()
+
+// countries: the first four occur in databases, the last two never do. Matching is by the exact
+// ISO code the database holds (the field comments say nothing about letter case: no case variants).
+var geoDBCountries = []string{"CN", "CN", "US", "DE", "JP", ""} // "" = record without a country
+var geoRegistered = []string{"CN", "US", "DE", "JP", ""}
+var geoListCountries = []string{"CN", "US", "DE", "JP", "FR", "ZZ"}
 
 var userVocab = []string{"alice", "bob", "carol"}
 var requestUsers = []string{"alice", "bob", "carol", "mallory", ""}
@@ -328,6 +348,82 @@ type genCase struct {
 	labels    map[string]bool
 	// some route lists "" in fromUsers: anonymous requests are drawn more often
 	emptyUserListed bool
+	// boundary addresses of the networks of the country database (never in IPv4-mapped form)
+	geoProbe, geoProbe4, geoProbe6 []netip.Addr
+	// the configuration carries a GeoIP criterion but names no database: it must be refused at load
+	expectRefusal bool
+	// names listed in toDomains of routes that carry toMatchedDomainExpectedGeoIPCountries
+	geoDomains []string
+}
+
+// genGeo draws the country database of a world and writes it with the harness's own MMDB writer.
+func genGeo(rt *rapid.T, g *genCase, dir string) {
+	n := rapid.IntRange(1, 8).Draw(rt, "geo-n")
+	var es []mmdbx.Entry
+	for i := 0; i < n; i++ {
+		var p netip.Prefix
+		if rapid.IntRange(0, 5).Draw(rt, "geo-random") == 0 {
+			a := rapid.SampledFrom(addrPool).Draw(rt, "geo-addr")
+			p = netip.PrefixFrom(a, rapid.IntRange(1, a.BitLen()).Draw(rt, "geo-bits")).Masked()
+		}
+		if !p.IsValid() || mmdbx.Check(mmdbx.Entry{Prefix: p}) != nil {
+			p = rapid.SampledFrom(geoPrefixPool).Draw(rt, "geo-prefix")
+		}
+		es = append(es, mmdbx.Entry{Prefix: p,
+			Country:    rapid.SampledFrom(geoDBCountries).Draw(rt, "geo-country"),
+			Registered: rapid.SampledFrom(geoRegistered).Draw(rt, "geo-registered")})
+	}
+	o := mmdbx.Options{
+		RecordSize: rapid.SampledFrom([]int{24, 24, 28, 32}).Draw(rt, "geo-rs"),
+		NoAlias:    rapid.IntRange(0, 5).Draw(rt, "geo-noalias") == 0,
+		Pointers:   rapid.Bool().Draw(rt, "geo-pointers"),
+		BuildEpoch: 1700000000,
+	}
+	b, err := mmdbx.Build(es, o)
+	if err != nil {
+		rt.Fatalf("harness: mmdbx.Build(%v): %v", es, err)
+	}
+	path := filepath.Join(dir, "Country.mmdb")
+	g.files[path] = b
+	g.cfg.GeoLite2CountryDbPath = path
+	g.w.geo = &geoModel{table: mmdbx.Table{Entries: es, NoAlias: o.NoAlias}, path: path}
+	for _, a := range mmdbx.Probes(es) {
+		switch {
+		case a.Is4In6():
+			continue
+		case a.Is4():
+			g.geoProbe4 = append(g.geoProbe4, a)
+		default:
+			g.geoProbe6 = append(g.geoProbe6, a)
+		}
+		g.geoProbe = append(g.geoProbe, a)
+	}
+	g.labels["geoip-db"] = true
+	g.labels[fmt.Sprintf("geoip-db/record-size-%d", o.RecordSize)] = true
+	if o.NoAlias {
+		g.labels["geoip-db/no-mapped-alias"] = true
+	}
+	if o.Pointers {
+		g.labels["geoip-db/data-pointers"] = true
+	}
+}
+
+// drawCountries draws a country list for a GeoIP criterion.
+func drawCountries(rt *rapid.T, label string) []string {
+	out := subset(rt, label, geoListCountries[:4], 0)
+	for _, c := range geoListCountries[4:] {
+		if rapid.IntRange(0, 3).Draw(rt, label+"-absent-"+c) == 0 {
+			out = append(out, c)
+		}
+	}
+	if len(out) == 0 {
+		out = append(out, rapid.SampledFrom(geoListCountries).Draw(rt, label+"-one"))
+	}
+	// "" is accepted at load; it is not a country
+	if rapid.IntRange(0, 19).Draw(rt, label+"-empty") == 0 {
+		out = append(out, "")
+	}
+	return rapid.Permutation(out).Draw(rt, label+"-perm")
 }
 
 func genWorld(rt *rapid.T, dir string) *genCase {
@@ -360,13 +456,26 @@ func genWorld(rt *rapid.T, dir string) *genCase {
 		}
 	}
 
+	// country database on a third of the worlds
+	if rapid.IntRange(0, 2).Draw(rt, "geo-db") == 0 {
+		genGeo(rt, g, dir)
+	}
+
 	// resolvers
 	nRes := rapid.IntRange(0, 3).Draw(rt, "resolvers")
 	drawAnswer := func(label string) answer {
 		k := rapid.SampledFrom([]int{0, 0, 1, 1, 2, 3, 4, 4, 5}).Draw(rt, label)
-		return answer{Kind: k,
+		a := answer{Kind: k,
 			V6: rapid.SampledFrom(addrPool6).Draw(rt, label+"-v6"),
 			V4: rapid.SampledFrom(addrPool4).Draw(rt, label+"-v4")}
+		// with a country database: answers on the boundaries of its networks
+		if len(g.geoProbe6) > 0 && rapid.Bool().Draw(rt, label+"-geo6") {
+			a.V6 = rapid.SampledFrom(g.geoProbe6).Draw(rt, label+"-v6g")
+		}
+		if len(g.geoProbe4) > 0 && rapid.Bool().Draw(rt, label+"-geo4") {
+			a.V4 = rapid.SampledFrom(g.geoProbe4).Draw(rt, label+"-v4g")
+		}
+		return a
 	}
 	for i := 0; i < nRes; i++ {
 		rm := &resolverModel{Name: fmt.Sprintf("r%d", i), ByName: map[string]answer{}}
@@ -538,6 +647,12 @@ func genWorld(rt *rapid.T, dir string) *genCase {
 			}
 			rc.InvertFromPrefixes = p == 2
 		}
+		if w.geo != nil {
+			if p := drawPresence(rt, "from-geo"); p > 0 {
+				rc.FromGeoIPCountries = drawCountries(rt, "fgc")
+				rc.InvertFromGeoIPCountries = p == 2
+			}
+		}
 		if p := drawPresence(rt, "to-ports"); p > 0 {
 			var probes []uint16
 			rc.ToPorts, rc.ToPortRanges, rm.toPort, probes = drawPorts(rt, "tp")
@@ -572,20 +687,36 @@ func genWorld(rt *rapid.T, dir string) *genCase {
 			}
 			// "require the matched domain to resolve into": needs resolvers; not combined with
 			// invertToDomains (documented ambiguously)
-			if nRes > 0 && rapid.IntRange(0, 2).Draw(rt, "expected") == 0 {
-				pe := rapid.IntRange(1, 2).Draw(rt, "expected-inv")
-				which := rapid.IntRange(0, 2).Draw(rt, "expected-which")
-				if len(psNames) == 0 {
-					which = 0
+			expectedOdds := 2 // one in three
+			if w.geo != nil {
+				expectedOdds = 1 // with a country database: one in two
+			}
+			if nRes > 0 && rapid.IntRange(0, expectedOdds).Draw(rt, "expected") == 0 {
+				// which address kinds the requirement names: prefixes, countries (needs a database), both
+				ekind := "prefixes"
+				if w.geo != nil {
+					ekind = rapid.SampledFrom([]string{"prefixes", "countries", "countries", "countries", "both"}).Draw(rt, "expected-kind")
 				}
-				if which != 1 {
-					rc.ToMatchedDomainExpectedPrefixes = drawPrefixes(rt, "epx", 1, 3)
+				if ekind != "countries" {
+					pe := rapid.IntRange(1, 2).Draw(rt, "expected-inv")
+					which := rapid.IntRange(0, 2).Draw(rt, "expected-which")
+					if len(psNames) == 0 {
+						which = 0
+					}
+					if which != 1 {
+						rc.ToMatchedDomainExpectedPrefixes = drawPrefixes(rt, "epx", 1, 3)
+					}
+					if which != 0 {
+						rc.ToMatchedDomainExpectedPrefixSets = subset(rt, "eps", psNames, 1)
+					}
+					rc.InvertToMatchedDomainExpectedPrefixes = pe == 2
+					g.labels["expected-prefixes"] = true
 				}
-				if which != 0 {
-					rc.ToMatchedDomainExpectedPrefixSets = subset(rt, "eps", psNames, 1)
+				if ekind != "prefixes" {
+					rc.ToMatchedDomainExpectedGeoIPCountries = drawCountries(rt, "egc")
+					rc.InvertToMatchedDomainExpectedGeoIPCountries = rapid.IntRange(0, 2).Draw(rt, "expected-geo-inv") == 0
+					g.geoDomains = append(g.geoDomains, rc.ToDomains...)
 				}
-				rc.InvertToMatchedDomainExpectedPrefixes = pe == 2
-				g.labels["expected-prefixes"] = true
 			} else {
 				rc.InvertToDomains = pd == 2
 			}
@@ -604,11 +735,35 @@ func genWorld(rt *rapid.T, dir string) *genCase {
 			}
 			rc.InvertToPrefixes = p == 2
 		}
+		if w.geo != nil {
+			if p := drawPresence(rt, "to-geo"); p > 0 {
+				if len(rc.ToPrefixes) == 0 && len(rc.ToPrefixSets) == 0 {
+					rc.DisableNameResolutionForIPRules = nRes == 0 || rapid.IntRange(0, 3).Draw(rt, "disable-resolve-geo") == 0
+				}
+				rc.ToGeoIPCountries = drawCountries(rt, "tgc")
+				rc.InvertToGeoIPCountries = p == 2
+			}
+		}
 		if nRes > 0 && rapid.IntRange(0, 2).Draw(rt, "route-resolver") == 0 {
 			rc.Resolver = w.resolvers[rapid.IntRange(0, nRes-1).Draw(rt, "route-resolver-idx")].Name
 			g.labels["route-resolver"] = true
 		}
 		w.routes = append(w.routes, rm)
+	}
+	// A GeoIP criterion without a database cannot be evaluated: such a configuration is refused at
+	// load ("missing GeoLite2 country database path"). Generated on a few of the worlds without one.
+	if w.geo == nil && nRoutes > 0 && rapid.IntRange(0, 24).Draw(rt, "geo-without-db") == 0 {
+		rc := &g.cfg.Routes[rapid.IntRange(0, nRoutes-1).Draw(rt, "geo-without-db-route")]
+		list := drawCountries(rt, "ngc")
+		switch rapid.IntRange(0, 2).Draw(rt, "geo-without-db-kind") {
+		case 0:
+			rc.FromGeoIPCountries = list
+		case 1:
+			rc.ToGeoIPCountries = list
+		default:
+			rc.ToMatchedDomainExpectedGeoIPCountries = list
+		}
+		g.expectRefusal = true
 	}
 	return g
 }
@@ -632,6 +787,12 @@ func drawRequest(rt *rapid.T, g *genCase) request {
 		}
 		return rapid.Uint16().Draw(rt, label+"-any")
 	}
+	drawAddr := func(rt *rapid.T, label string) netip.Addr {
+		if len(g.geoProbe) > 0 && rapid.Bool().Draw(rt, label+"-geo") {
+			return rapid.SampledFrom(g.geoProbe).Draw(rt, label+"-geo-addr")
+		}
+		return drawAddr(rt, label)
+	}
 	src := drawAddr(rt, "src")
 	if src.Is4() && rapid.IntRange(0, 2).Draw(rt, "src-mapped") == 0 {
 		src = netip.AddrFrom16(src.As16())
@@ -646,6 +807,11 @@ func drawRequest(rt *rapid.T, g *genCase) request {
 		}
 	} else {
 		q.Domain = rapid.SampledFrom(domainVocab).Draw(rt, "domain")
+		if len(g.geoDomains) > 0 && rapid.Bool().Draw(rt, "domain-geo") {
+			if d := rapid.SampledFrom(g.geoDomains).Draw(rt, "domain-geo-name"); d != "" {
+				q.Domain = d
+			}
+		}
 	}
 	return q
 }
@@ -772,6 +938,7 @@ const sigPort0 = "port0-bitmap-panic"
 var recRouter = ev.New("C09", "router-model",
 	"rapid: router.Config (JSON round-tripped) with 0-6 routes; each criterion kind absent/present/inverted; port criteria forcing single / <=16 ranges / bitmap; "+
 		"toDomains below/above 16; domain-set (text, gob) and prefix-set files written by the harness; 0-3 scripted resolvers (AAAA+A, A, AAAA, none, ErrLookup, other error) global or per route; "+
+		"on a third of the configurations a GeoLite2-Country database written by the harness's own MMDB writer (1-8 nested IPv4/IPv6 networks, 24/28/32-bit records, with/without the ::ffff:0:0/96 alias, records without a country) and fromGeoIPCountries / toGeoIPCountries / toMatchedDomainExpectedGeoIPCountries absent/present/inverted, a few configurations with a GeoIP criterion and no database (refused at load); "+
 		"default named/reject/implicit-single; 12 requests per config over the config's vocabulary and boundaries (port 0/1/65535 and range edges, mapped sources, IP and domain targets, unknown users, tcp/udp, each server). "+
 		"Oracle: three-valued reference evaluator of the RouteConfig field comments. One evaluation = one (config, request) pair. "+
 		"Non-trivial: >=2 routes, deciding route not the first, and an inverted or OR-group criterion in a reached route; distinct key = config shape + request class + decider").
@@ -780,7 +947,12 @@ var recRouter = ev.New("C09", "router-model",
 		"target-ip", "target-domain", "unknown-user", "default-implicit", "default-reject", "errlookup-skipped", "route-resolver", "expected-prefixes", "cheap-false-resolver-fails",
 		"fromUsers-contains-empty/anonymous-request", "fromUsers-contains-empty/anonymous-request/inverted", "fromUsers-contains-empty/named-request",
 		"fromServers-contains-empty/request-from-unnamed-server", "fromServers-contains-empty/request-from-unnamed-server/inverted",
-		"toDomains-contains-empty", "prefix-/0", "unspecified-address", "reject-route-network-restricted/other-network-request")
+		"toDomains-contains-empty", "prefix-/0", "unspecified-address", "reject-route-network-restricted/other-network-request",
+		"geoip-from", "geoip-from/inverted", "geoip-from/or-prefixes", "geoip-to", "geoip-to/inverted", "geoip-to-ip-target", "geoip-to-domain-resolved",
+		"geoip-to-domain-not-resolved", "geoip-to-domain-resolver-fails", "geoip-expected", "geoip-expected/inverted", "geoip-expected/domain-matched",
+		"geoip-inverted", "geoip-addr-not-in-db", "geoip-record-without-country", "geoip-in-listed-country", "geoip-longest-network-decides",
+		"geoip-mapped-address", "geoip-v4-address-under-v6-network", "geoip-decides", "geoip-decides/from", "geoip-decides/to", "geoip-decides/expected",
+		"geoip-no-db-refused", "geoip-db/record-size-24", "geoip-db/record-size-28", "geoip-db/record-size-32", "geoip-db/data-pointers")
 
 var dirSeq atomic.Int64
 
@@ -815,13 +987,37 @@ type fataler interface {
 
 func runCase(rt fataler, g *genCase, qs []request, rec *ev.Recorder, ntRule func(q *request) bool) {
 	r, err := buildRouter(g)
+	if g.expectRefusal {
+		js, _ := json.Marshal(&g.cfg)
+		if err == nil {
+			r.Close()
+			rt.Fatalf("SIG=C09/geoip-criterion-without-database-accepted config=%s", js)
+		}
+		l := "geoip-no-db-refused"
+		if !strings.Contains(err.Error(), "missing GeoLite2 country database path") {
+			l = "geoip-no-db-refused/other-message"
+		}
+		rec.Case("refused-at-load", false, l)
+		return
+	}
 	if err != nil {
 		js, _ := json.Marshal(&g.cfg)
 		rt.Fatalf("SIG=C09/valid-config-rejected err=%v config=%s", err, js)
 	}
 	defer r.Close()
-	cfgJSON := func() string { js, _ := json.Marshal(&g.cfg); return string(js) }
 	w := g.w
+	cfgJSON := func() string {
+		js, _ := json.Marshal(&g.cfg)
+		if w.geo != nil {
+			// the database file is gone after the run: print its content
+			var sb strings.Builder
+			for _, e := range w.geo.table.Entries {
+				fmt.Fprintf(&sb, " %v=%q(registered %q)", e.Prefix, e.Country, e.Registered)
+			}
+			return fmt.Sprintf("%s country-db(mapped-alias=%v):%s", js, !w.geo.table.NoAlias, sb.String())
+		}
+		return string(js)
+	}
 
 	shape := configShape(g)
 	for i := range qs {
@@ -860,6 +1056,37 @@ func runCase(rt fataler, g *genCase, qs []request, rec *ev.Recorder, ntRule func
 			}
 			for _, l := range inf.degenerate {
 				add(l)
+			}
+		}
+		// GeoIP labels: once per pair
+		geoSeen := map[string]bool{}
+		for _, inf := range want.infos {
+			for _, l := range inf.geo {
+				if !geoSeen[l] {
+					geoSeen[l] = true
+					add(l)
+				}
+			}
+		}
+		if len(geoSeen) > 0 {
+			add("geoip-evaluated")
+			// does a GeoIP criterion decide this request? Negate the verdict of the GeoIP criteria of
+			// one kind in the model and see whether the acceptable outcomes change.
+			decides := false
+			for _, k := range []struct {
+				bit  uint8
+				name string
+			}{{geoFrom, "from"}, {geoTo, "to"}, {geoExp, "expected"}} {
+				w.geoFlip = k.bit
+				alt := w.route(q)
+				w.geoFlip = 0
+				if !slices.Equal(keys(alt.accept), keys(want.accept)) {
+					decides = true
+					add("geoip-decides/" + k.name)
+				}
+			}
+			if decides {
+				add("geoip-decides")
 			}
 		}
 
@@ -1025,6 +1252,9 @@ func configShape(g *genCase) string {
 		f(len(rc.ToDomains) > 0, rc.InvertToDomains, 'd')
 		f(len(rc.ToDomainSets) > 0, rc.InvertToDomains, 'e')
 		f(len(rc.ToMatchedDomainExpectedPrefixes)+len(rc.ToMatchedDomainExpectedPrefixSets) > 0, rc.InvertToMatchedDomainExpectedPrefixes, 'm')
+		f(len(rc.FromGeoIPCountries) > 0, rc.InvertFromGeoIPCountries, 'g')
+		f(len(rc.ToGeoIPCountries) > 0, rc.InvertToGeoIPCountries, 'h')
+		f(len(rc.ToMatchedDomainExpectedGeoIPCountries) > 0, rc.InvertToMatchedDomainExpectedGeoIPCountries, 'k')
 		f(len(rc.ToPrefixes) > 0, rc.InvertToPrefixes, 'v')
 		f(len(rc.ToPrefixSets) > 0, rc.InvertToPrefixes, 'w')
 		f(rc.DisableNameResolutionForIPRules, false, 'n')
